@@ -45,6 +45,9 @@ def agreement_problems(sim: core.Sim, *, check_zids: bool = True) -> list[dict]:
         out.append({"clause": "page-only-in-index", "page": p})
     for p in sorted(fp - ip):
         out.append({"clause": "page-only-in-files", "page": p})
+    for p in sorted(ip & fp):
+        if ci["pages"][p]["has_errors"] != cf["pages"][p]["has_errors"]:
+            out.append({"clause": "page-error-flag-differs", "page": p, "index": ci["pages"][p]["has_errors"], "files": cf["pages"][p]["has_errors"]})
     for k in ci["dup_notes"]:
         out.append({"clause": "note-duplicated-in-index", "key": list(k)})
     for p in ci["dup_pages"]:
